@@ -132,7 +132,7 @@ def run(ctx):
                               jsonable(frags)[:25]))
     mon = smmon.SourcemapMonitor(ctx, on_violation).install()
     try:
-        for i in range(ctx.pick(1200, 30000)):
+        for i in range(ctx.per_shard(1200, 30000)):
             frags = synthetic(rng)
             for normalize in (True, False):
                 run_stream(ctx, mon, frags, normalize, 'synthetic')
@@ -145,7 +145,7 @@ def run(ctx):
 
         def opts_fn(i, r):
             return jsgen.Opts(clean=True, string_continuations=(i % 3 == 0), allow_with=False)
-        progs = work.Programs(ctx, ctx.pick(150, 3000), opts_fn=opts_fn)
+        progs = work.Programs(ctx, ctx.per_shard(150, 3000), opts_fn=opts_fn)
         pool = []
         for i, (text, meta) in enumerate(progs):
             try:
